@@ -143,10 +143,34 @@ def check_envelope(ctx, f, R='S'):
 
 
 
+def check_clone_resets(ctx, f, handle_struct):
+    """M4: the per-operation modifiers belong to one handle and to its next operation.  A clone of a handle is another handle: whatever
+    was staged on the original must not also go out with the clone's next operation (it would be sent twice, and on an operation
+    nobody attached it to).  On every path of the handle's Clone::clone the three modifier fields of the result are None.  (The
+    library's own cloning sites - streaming_search_with, the paging adapter - copy what they need explicitly and are checked as such.)"""
+    cl = [p for p in f.hir if p.startswith('<' + handle_struct + ' as core::clone::Clone>::clone')]
+    if len(cl) != 1:
+        ctx.fail('anchor-missing', 'Clone for the handle', '', 'expected one Clone::clone for %s, found %s' % (handle_struct, cl)); return
+    B = hirq.Body(f, f.hir[cl[0]])
+    ctx.analysed['bodies'].add(cl[0])
+    n = 0
+    for o in absx.Interp(f, B, unroll=1, combinators=True, inline=lambda c: inline_policy(c) or c.startswith(handle_struct + '::')).run():
+        if o.kind not in ('val', 'ret'):
+            continue
+        n += 1
+        v = o.val
+        fl = dict(v[2]) if v[0] == 'struct' else {}
+        for m in ('controls', 'timeout', 'search_opts'):
+            got = o.st.heap.get(('field', v, m), fl.get(m, ('unk',)))
+            ctx.add('M4.cloned-handle-starts-without-modifiers', m, loc(B.root), got == ('ctor', 'None', ()),
+                    'a clone of a handle inherits its pending `%s` (%s): a modifier staged for one operation also goes out with the clone\'s next operation' % (m, absx.fmt(got)[:60]))
+    ctx.floor('M4', 'paths of the handle\'s Clone::clone', n, 1)
+
 def run(ctx):
     f = ctx.facts
     Cn = anchors.Conn(f)
     OPC = Cn.op_call_path
+    check_clone_resets(ctx, f, Cn.handle_struct)
 
     # ------------------------------------------------------------------ S1-S12, S15, M2/M3 per method
     for m, (op_variant, ref) in REQUESTS.items():
